@@ -43,7 +43,9 @@
 //  thresholds in the anchored files    | nhit == len(Ins); layer == Nlayer-1;        | all sides by all-4-nodes + random (push needs >= 6
 //                                      | out.layer > layer+1; tak[y-2], tak[y+2];    | nodes: dag-layered, corpus-push-paths)
 //                                      | offset loop in findY; (sum+n/2)/n rounding  |
-//  concurrency                         | none in the package                         | -
+//  concurrency / per-process state     | the package has no package-level variable;  | conc [new]: 8 goroutines, each checking ONLY its own
+//                                      | two goroutines, each with its OWN graph     | graphs (rings of ~200 nodes, rings with a chord, a DAG
+//                                      |                                             | laid out both ways) at once, also under -race (C19-j)
 package main
 
 import (
@@ -55,6 +57,7 @@ import (
 	"sort"
 	"strconv"
 	"strings"
+	"sync"
 	"time"
 
 	"shanhu.io/g/dags"
@@ -1253,6 +1256,165 @@ func genOps(r *hx.Rng, c *Case) {
 	c.Ops = in
 }
 
+// ---------------------------------------------------------------- conc: every goroutine its OWN graph
+
+// ConcRes is what one goroutine saw over all rounds on one of its own graphs.
+type ConcRes struct {
+	Stream string `json:"s"`
+	Worker int    `json:"worker"`
+	Graph  string `json:"graph"` // ring-<n> | ring-chord-<n> | dag-<n>
+	Rounds int    `json:"rounds"`
+	Fail   string `json:"fail,omitempty"`   // cycle-not-in-graph | cycle-not-minimal | verdict | panic | layout
+	Detail string `json:"detail,omitempty"`
+}
+
+// concGraphs: the graphs of worker w, names prefixed with the worker's own
+// letter so that a node of another goroutine's graph is recognisable.
+func concGraphs(w int) (descs []string, gs []map[string][]string, girth []int) {
+	nm := func(i int) string { return fmt.Sprintf("%c%04d", 'a'+w, i) }
+	ring := func(n, chordTo int) map[string][]string {
+		g := map[string][]string{}
+		for i := 0; i < n; i++ {
+			g[nm(i)] = []string{nm((i + 1) % n)}
+		}
+		if chordTo > 0 {
+			g[nm(chordTo)] = append(g[nm(chordTo)], nm(0)) // a shorter cycle 0..chordTo
+		}
+		return g
+	}
+	n := 180 + 7*w
+	descs, gs, girth = append(descs, fmt.Sprintf("ring-%d", n)), append(gs, ring(n, 0)), append(girth, n)
+	descs, gs, girth = append(descs, fmt.Sprintf("ring-chord-%d", n/2)), append(gs, ring(n/2, 5+w)), append(girth, 6+w)
+	dag := map[string][]string{}
+	for i := 0; i < 40; i++ {
+		dag[nm(i)] = nil
+		if i+1 < 40 {
+			dag[nm(i)] = append(dag[nm(i)], nm(i+1))
+		}
+		if i+3 < 40 && (i+w)%4 == 0 {
+			dag[nm(i)] = append(dag[nm(i)], nm(i+3))
+		}
+	}
+	descs, gs, girth = append(descs, "dag-40"), append(gs, dag), append(girth, 0)
+	return
+}
+
+func concCheck(nodes map[string][]string, girth int) (fail, detail string) {
+	defer func() {
+		if e := recover(); e != nil {
+			fail, detail = "panic", fmt.Sprint(e)
+		}
+	}()
+	g := dags.NewGraph(nodes)
+	judge := func(err error, who string) (string, string) {
+		if girth == 0 {
+			if err != nil {
+				return "verdict", who + " rejects an acyclic graph: " + err.Error()
+			}
+			return "", ""
+		}
+		if err == nil {
+			return "verdict", who + " accepts a cyclic graph"
+		}
+		msg := err.Error()
+		if !strings.HasPrefix(msg, circlePrefix) {
+			return "verdict", who + ": " + msg
+		}
+		cyc := strings.Split(msg[len(circlePrefix):], "->")
+		for i, a := range cyc {
+			b := cyc[(i+1)%len(cyc)]
+			l, ok := nodes[a]
+			if !ok {
+				return "cycle-not-in-graph", who + " reports a cycle through " + a + ", which is no node of the caller's graph"
+			}
+			found := false
+			for _, t := range l {
+				if t == b {
+					found = true
+				}
+			}
+			if !found {
+				return "cycle-not-in-graph", who + " reports the step " + a + "->" + b + ", which is no edge of the caller's graph"
+			}
+		}
+		if len(cyc) != girth {
+			return "cycle-not-minimal", fmt.Sprintf("%s reports a cycle of length %d, the shortest has %d", who, len(cyc), girth)
+		}
+		return "", ""
+	}
+	if f, d := judge(dags.CheckDAG(g), "CheckDAG"); f != "" {
+		return f, d
+	}
+	_, err := dags.NewMap(g)
+	if f, d := judge(err, "NewMap"); f != "" {
+		return f, d
+	}
+	if girth == 0 {
+		for _, rev := range []bool{false, true} {
+			var v *dags.MapView
+			var err error
+			if rev {
+				_, v, err = dags.RevLayout(g)
+			} else {
+				_, v, err = dags.Layout(g)
+			}
+			if err != nil {
+				return "verdict", "Layout: " + err.Error()
+			}
+			seen := map[[2]int]bool{}
+			for k, nv := range v.Nodes {
+				if seen[[2]int{nv.X, nv.Y}] || nv.X < 0 || nv.X >= v.Width || nv.Y < 0 || nv.Y >= v.Height {
+					return "layout", "node " + k + " shares a coordinate or lies outside"
+				}
+				seen[[2]int{nv.X, nv.Y}] = true
+			}
+			for k, l := range nodes {
+				for _, t := range l {
+					if !(v.Nodes[k].X < v.Nodes[t].X) {
+						return "layout", "edge " + k + "->" + t + " is not left to right"
+					}
+				}
+			}
+		}
+	}
+	return "", ""
+}
+
+// runConc: workers goroutines, each checking ONLY its own graphs, all at once.
+func runConc(workers, rounds int, out *hx.Out) {
+	res := make([][]ConcRes, workers)
+	var wg sync.WaitGroup
+	start := make(chan struct{})
+	for w := 0; w < workers; w++ {
+		wg.Add(1)
+		go func(w int) {
+			defer wg.Done()
+			descs, gs, girth := concGraphs(w)
+			rs := make([]ConcRes, len(gs))
+			for i := range rs {
+				rs[i] = ConcRes{Stream: "conc", Worker: w, Graph: descs[i], Rounds: rounds}
+			}
+			<-start
+			for r := 0; r < rounds; r++ {
+				for i := range gs {
+					if rs[i].Fail != "" {
+						continue
+					}
+					rs[i].Fail, rs[i].Detail = concCheck(gs[i], girth[i])
+				}
+			}
+			res[w] = rs
+		}(w)
+	}
+	close(start)
+	wg.Wait()
+	for _, rs := range res {
+		for i := range rs {
+			out.Emit(&rs[i])
+		}
+	}
+}
+
 // ---------------------------------------------------------------- exhaustive family with in-harness oracles
 
 // maskOracle checks an observation of a mask-family graph (n <= 6) against
@@ -1561,12 +1723,18 @@ func main() {
 	tmo := flag.Duration("timeout", 20*time.Second, "per-case limit")
 	maxCrash := flag.Int("maxcrash", 6, "stop after this many cases without a result")
 	casesFile := flag.String("cases", "", "run the cases of this JSON-lines file instead of generating")
+	conc := flag.Int("conc", 0, "conc stream: this many goroutines, each checking its own graphs, and exit")
+	rounds := flag.Int("rounds", 12, "conc stream: rounds per goroutine")
 	wideFlag := flag.String("wide", "", "comma-separated layer widths of the wide stream")
 	ex := flag.Int("exhaust", 0, "run every graph on this many nodes against the in-harness oracles")
 	sample := flag.Int("sample", 2000, "exhaust: emit 1 of this many cyclic graphs")
 	workers := flag.Int("workers", 8, "exhaust: goroutines")
 	flag.Parse()
 
+	if *conc > 0 {
+		runConc(*conc, *rounds, hx.NewOut(os.Stdout))
+		return
+	}
 	for _, x := range strings.Split(*wideFlag, ",") {
 		if v, err := strconv.Atoi(strings.TrimSpace(x)); err == nil {
 			wideWidths = append(wideWidths, v)
